@@ -117,11 +117,13 @@ fn am_last_dir(am: &Amortised) -> std::path::PathBuf {
 fn shard(ctx: &ShardCtx) -> ShardResult {
     let mut res = ShardResult::default();
     let mut am = Amortised::new(&ctx.work());
-    let mut i = 0u64;
+    let mut i = ctx.first_index;
     while ctx.time_left() {
         let case = case_at(ctx.seed, ctx.shard, i, 12, &mut res);
         journal_current(ctx, &case.src);
+        ctx.begin_case(i, &case.src, &res);
         run_case(&mut am, &case, &mut res, i == 1);
+        ctx.end_case();
         i += 1;
         if i % 20 == 0 {
             write_partial(ctx, &res);
